@@ -393,6 +393,10 @@ func (p *Prog) tryResolveType(s, pkg string, fn *ssa.Function) types.Type {
 	if s == "any" {
 		return types.Universe.Lookup("any").Type()
 	}
+	if strings.HasPrefix(s, "func(") {
+		// function values are opaque references in the model: one signature type stands for all of them
+		return types.NewSignatureType(nil, nil, nil, nil, nil, false)
+	}
 	if strings.HasPrefix(s, "[]") {
 		if el := p.tryResolveType(s[2:], pkg, fn); el != nil {
 			return types.NewSlice(el)
